@@ -51,7 +51,8 @@ def nontrivial(prog, steps):
 
 def main(argv):
     return rcheck.run(
-        PID, argv, module=None, theorems=[], gen=gen, oracle=oracle, nontrivial=nontrivial,
+        PID, argv, module="C10", theorems=["C10_batch_defers", "C10_batched_exec", "C10_batching_kept", "C10_inner_batch", "C10_outermost_batch",
+                                        "C10_batch_quiet_log", "C10_flush_consistent"], gen=gen, oracle=oracle, nontrivial=nontrivial,
         rule=("batch bodies with 1-3 writes to 1-3 signals, repeated writes, nesting up to depth 3, reads of derived nodes inside "
               "the body, batches started inside effects; non-trivial = a top-level batch whose flush ran a computation; "
               "distinct = distinct program text"),
